@@ -1625,7 +1625,12 @@ def _fix_copy(self: fst.FST, options: Mapping[str, Any]) -> None:
 
             self._maybe_add_singleton_comma(is_delimited)  # specifically for lone '*starred' as a `Tuple` without comma from `Subscript.slice`, even though those can't be gotten alone organically, maybe we shouldn't even bother?
 
-            if need_pars:
+            if (need_pars
+                or (
+                    not is_delimited
+                    and not self._is_enclosed_or_line(check_pars=False)  # multiline naked tuple from `Subscript.slice` is not parsable on its own
+                    and not any(e.__class__ is Slice for e in ast.elts)  # unless has a Slice, then it can only ever be parsed as a slice (which can be multiline) and can't be parenthesized
+            )):
                 self._delimit_node()
 
     elif ast_cls is NamedExpr:
